@@ -123,6 +123,39 @@ func probes(c *hx.Ctx) {
 		on(tr("ONT", false, dl+60, nil, jTS{V, Y, "1"}), E, V),    // after the deadline: nested ONT -> ONG payout to V and Y
 		on(tr("ONT", false, dl+70, nil, jTS{V, Y, "1"}), E, V, P), // still refused
 	}})
+	// V2 amounts at the edges of the two record encodings, as credited side, debited side,
+	// approved allowance and spent-down allowance; sums of a multi-movement transfer crossing 2^64.
+	for _, tok := range []string{"ONG", "ONT"} {
+		rich := new(big.Int).Div(capOf(tok), big.NewInt(2))
+		st := jState{Bal: map[string][]jBal{"ONT": {{X, units(10)}}, "ONG": {{O, units(1000)}}}, Allow: map[string][]jAllow{}, Offs: []jBal{{X, "5"}, {Y, "5"}, {Z, "5"}}}
+		st.Bal[tok] = append(st.Bal[tok], jBal{hexOf(small(0x41)), rich.String()})
+		R := hexOf(small(0x41))
+		var calls []jCall
+		t := uint32(5) // offsets equal to the stored ones: no ONG grant interferes with the ONT run
+		for _, T := range boundaryValues(tok) {
+			if T.Cmp(rich) > 0 {
+				// above what anybody holds: still sent as amounts (bound / balance errors)
+				calls = append(calls, tr(tok, true, t, []string{R}, jTS{R, Y, T.String()}), ap(tok, true, t, []string{R}, R, Y, T.String()))
+				continue
+			}
+			calls = append(calls,
+				tr(tok, true, t, []string{R}, jTS{R, Y, plus(T, 5).String()}),                  // credit: Y = T+5
+				tr(tok, true, t, []string{Y}, jTS{Y, Z, "5"}),                                  // debit leaves Y = T
+				ap(tok, true, t, []string{R}, R, Y, plus(T, 3).String()),                       // allowance T+3
+				tf(tok, true, t, []string{Y}, "", Y, R, Z, "3"),                                // spent down to T
+				tf(tok, true, t, []string{Y}, "", Y, R, Z, T.String()),                         // spent to 0: record deleted
+				tr(tok, true, t, []string{Y}, jTS{Y, R, plus(T, -7).String()}, jTS{Y, R, "7"}), // two movements summing to T: Y = 0
+			)
+		}
+		// running sum of one call crossing 2^64 on the credited side
+		if tok == "ONG" {
+			calls = append(calls,
+				tr(tok, true, t, []string{R}, jTS{R, Y, plus(two64, -1000000000).String()}, jTS{R, Y, "999999999"}, jTS{R, Y, "1"}, jTS{R, Y, "709551616"}),
+				tr(tok, false, t, []string{Y}, jTS{Y, Z, "18446744073"}),
+				tr(tok, true, t, []string{Y}, jTS{Y, Z, "709551616"}, jTS{Y, Z, "709551616"}))
+		}
+		seqs = append(seqs, jSeq{Mode: "direct", Net: net, Init: st, Calls: calls})
+	}
 	for i := range seqs {
 		c.Count("probe")
 		runDirect(c, &seqs[i], nil, 0)
